@@ -29,7 +29,10 @@ HOSTS = [("reg", "example.com"), ("idn", "bücher.example"), ("idn2", "例え.jp
          ("idn2003-symbol", "☃.net"), ("idn2003-underscore", "_sip.bücher.de"), ("idn2003-hyphens", "bü--cher.de"), ("idn2003-bidi", "٣.bücher.de"), ("idn2003-emoji", "i❤.ws"),
          # valid IDNA 2008 names whose U-label holds a NON-PRINTABLE joiner (ZWNJ in Persian, ZWJ in Sinhala): a host is never percent-decoded,
          # so these must be shown as they are
-         ("idn-zwnj", "نامه\u200cای.com"), ("idn-zwj", "ශ්\u200dරී.com")]
+         ("idn-zwnj", "نامه\u200cای.com"), ("idn-zwj", "ශ්\u200dරී.com"),
+         # IP literals whose ZONE looks like something the IDNA decoder would touch (an xn-- label, dots), an A-label ending in a digit,
+         # an IPvFuture literal: IP literals are shown as they are
+         ("ipv6zone-alabel", "fe80::a%x.xn--e1afmkfd.y"), ("ipv6zone-dots", "fe80::b%eth0.100"), ("alabel-digit", "xn--e1afmkfd.xn--p1ai9")]
 DEFAULT = {"http": 80, "https": 443, "ws": 80, "wss": 443, "ftp": 21}
 
 # parts also run by 4 threads at once in one process (runner adds the jobs; see yv/ctx.py Ctx.threaded)
